@@ -162,16 +162,17 @@ func C05Containers() {
 		}
 	default:
 		vv := [][]uint16{{sym.U16("a")}, {}, {sym.U16("b"), sym.U16("c")}}
-		im.retVV = [][]uint16{{sym.U16("r")}}
+		im.retVV = [][]uint16{{sym.U16("r00"), sym.U16("r01")}, {sym.U16("r10"), sym.U16("r11")}}
 		got, err := p.Nested(vv)
 		sym.Assert(err == nil, "nested/call-ok")
 		sym.Assert(len(im.vv) == 3 && len(im.vv[0]) == 1 && len(im.vv[1]) == 0 && len(im.vv[2]) == 2, "nested/argument-shape")
 		if len(im.vv) == 3 && len(im.vv[0]) == 1 && len(im.vv[2]) == 2 {
 			sym.Assert(sym.And(im.vv[0][0] == vv[0][0], sym.And(im.vv[2][0] == vv[2][0], im.vv[2][1] == vv[2][1])), "nested/argument")
 		}
-		sym.Assert(len(got) == 1 && len(got[0]) == 1, "nested/result-shape")
-		if len(got) == 1 && len(got[0]) == 1 {
-			sym.Assert(got[0][0] == im.retVV[0][0], "nested/result")
+		sym.Assert(len(got) == 2 && len(got[0]) == 2 && len(got[1]) == 2, "nested/result-shape")
+		if len(got) == 2 && len(got[0]) == 2 && len(got[1]) == 2 {
+			sym.Assert(sym.And(sym.And(got[0][0] == im.retVV[0][0], got[0][1] == im.retVV[0][1]),
+				sym.And(got[1][0] == im.retVV[1][0], got[1][1] == im.retVV[1][1])), "nested/result")
 		}
 	}
 	sym.Assert(im.calls == 1, "method-body-ran-exactly-once")
